@@ -1,8 +1,8 @@
 """C04  Damage is detected: no success with different content.
 
 D  Integrity.tla: the coverage map of the integrity mechanisms (which checksum covers which region on which read path) over
-   all layouts x regions x paths; invariants NoWrongSuccess, HeaderCovered, UncoveredByWriter (py7zr stores no CRC of the
-   decoded header of an encoded header - the exhaustive replay decides whether that ever yields wrong content).
+   all layouts x regions x paths; invariants NoWrongSuccess, HeaderCovered (since the repair py7zr stores the CRC of the
+   decoded header of an encoded header, as the reference writer can; layouts without it come from foreign writers).
 R  sample archives (py7zr-written and reference-written; every codec family in thorough; with and without AES; raw and
    encoded header; 1..4 folders; per-file CRCs): EVERY single-bit flip, truncations, byte overwrites, bursts, block swaps,
    insertions/removals, extensions; each image is read in a sandbox through extractall, extract(T), test() and testzip().
